@@ -125,9 +125,12 @@ where B::Output: ByteOrder {
         Op::Utf16Le(d) => b.read_string::<Utf16Decoder<LittleEndian>>(d).map_err(|_| ()),
         Op::Switch(n) => {
             match b.switch_endian_chunk(n) {
-                Ok(chunk) => {
+                Ok(mut chunk) => {
                     next_packet = Some((chunk.remaining_bytes().to_vec(), chunk.current_position()));
-                    Ok(format!("chunk {:?}", chunk.remaining_bytes()))
+                    let bytes = chunk.remaining_bytes().to_vec();
+                    // read through the RETURNED reader itself (its byte order is the library's choice, not the model's)
+                    let probe = if bytes.len() >= 2 { chunk.read::<u16>().map(|v| format!(" u16={v}")).unwrap_or_else(|_| " u16=ERR".into()) } else { String::new() };
+                    Ok(format!("chunk {:?}{probe}", bytes))
                 }
                 Err(_) => Err(()),
             }
@@ -305,8 +308,15 @@ pub fn reference(s: &RState, op: Op) -> Vec<Step> {
         }
         Op::Switch(n) => {
             if n <= len - c {
+                let probe = if n >= 2 {
+                    // the chunk reads in the opposite byte order of its parent
+                    let two = [p[c], p[c + 1]];
+                    format!(" u16={}", if s.big { u16::from_le_bytes(two) } else { u16::from_be_bytes(two) })
+                } else {
+                    String::new()
+                };
                 vec![Step {
-                    value: Ok(format!("chunk {:?}|orig_cursor={}", &p[c .. c + n], c + n)),
+                    value: Ok(format!("chunk {:?}{probe}|orig_cursor={}", &p[c .. c + n], c + n)),
                     next: RState {
                         packet: p[c .. c + n].to_vec(),
                         cursor: 0,
